@@ -623,20 +623,31 @@ func (e *Env) Exec(cop core.Op) (resp string) {
 			return errResp(err)
 		}
 		rows, bad := DecodeChunks(st.Msgs)
+		Judges.Stream(st.Msgs, rows, bad)
 		if bad != "" {
 			return "malformed chunk stream: " + bad
 		}
 		return ShowRows(rows)
 	case "keys":
-		st := &sampleStream{fakeStream: fakeStream{ctx}}
-		if err := data.SampleRowKeys(&btpb.SampleRowKeysRequest{TableName: o.Name}, st); err != nil {
-			return errResp(err)
+		// SampleRowKeys draws at random (1 in 100 per row): ask many times, keep the distinct answers
+		seen := map[string]bool{}
+		var answers []string
+		for i := 0; i < sampleCalls; i++ {
+			st := &sampleStream{fakeStream: fakeStream{ctx}}
+			if err := data.SampleRowKeys(&btpb.SampleRowKeysRequest{TableName: o.Name}, st); err != nil {
+				return errResp(err)
+			}
+			s := fmt.Sprintf("sample %d", len(st.msgs))
+			for _, m := range st.msgs {
+				s += fmt.Sprintf(" %s:%d", hx(m.RowKey), m.OffsetBytes)
+			}
+			if !seen[s] {
+				seen[s] = true
+				answers = append(answers, s)
+			}
 		}
-		s := fmt.Sprintf("sample %d", len(st.msgs))
-		for _, m := range st.msgs {
-			s += fmt.Sprintf(" %s:%d", hx(m.RowKey), m.OffsetBytes)
-		}
-		return s
+		sort.Strings(answers)
+		return strings.Join(answers, " || ")
 	case "gcw":
 		// A GC pass during which the i-th lock reversal lets the i-th write through.
 		next := 0
@@ -671,44 +682,28 @@ func (e *Env) Exec(cop core.Op) (resp string) {
 	panic("exec kind " + o.Kind)
 }
 
-// Accept: string equality, except that SampleRowKeys is checked against its relation
-// (ascending subsequence of the stored keys, ending with the last one, offsets non-decreasing).
+// sampleCalls: how often one `keys` op asks SampleRowKeys (each row is drawn with probability 1/100).
+const sampleCalls = 400
+
+// Accept: string equality, except that SampleRowKeys is checked against its relation: each answer
+// must be an answer of the Model's loop for some sequence of random draws (sampleExplained; the same
+// verdict is asked of the Lean judge after the run).
 func Accept(cop core.Op, impl, model string) bool {
 	o := cop.(*Op)
 	if o.Kind != "keys" || !strings.HasPrefix(impl, "sample ") || !strings.HasPrefix(model, "keys ") {
 		return impl == model
 	}
-	keys := strings.Fields(model)[2:]
-	got := strings.Fields(impl)[2:]
-	if len(keys) == 0 {
-		return len(got) == 0
-	}
-	if len(got) == 0 {
-		return false
-	}
-	pos := 0
-	var lastOff int64 = -1
-	for _, g := range got {
-		kv := strings.SplitN(g, ":", 2)
-		var off int64
-		fmt.Sscan(kv[1], &off)
-		if off < lastOff {
+	rows := parseKS(strings.Fields(model)[2:])
+	ok := true
+	for _, ans := range strings.Split(impl, " || ") {
+		f := strings.Fields(ans)
+		if len(f) < 2 || f[0] != "sample" {
 			return false
 		}
-		lastOff = off
-		found := false
-		for pos < len(keys) {
-			if keys[pos] == kv[0] {
-				found = true
-				pos++
-				break
-			}
-			pos++
-		}
-		if !found {
-			return false
-		}
+		out := parseKS(f[2:])
+		v := sampleExplained(rows, out)
+		Judges.Sample(rows, out, v)
+		ok = ok && v
 	}
-	last := strings.SplitN(got[len(got)-1], ":", 2)[0]
-	return last == keys[len(keys)-1]
+	return ok
 }
